@@ -3,7 +3,7 @@ Model/Passes.v expansions, generated encoders through C01, %hi/%lo through C07).
 Correspondence + falsifier: tools/sem_engine.py (real assembler -> bytes -> extracted Spec machine build/bbsem)."""
 import sem_engine
 
-GEN_UNITS = ['Encoders', 'Criteria', 'Pseudo', 'Effects']
+GEN_UNITS = ['Encoders', 'Criteria', 'Pseudo', 'Effects', 'Guards']
 EXES = ['bbmodel', 'bbspec', 'bbsem']
 ASSUMPTIONS = ['single hart, no traps: fence is a no-op; misaligned / out-of-range addresses are not faults',
                'theorems: both renderings (uncompressed and compressed), register operands spelled as register names (not constant aliases)']
